@@ -16,6 +16,8 @@ FORMS = '''<!DOCTYPE html><html><head><meta http-equiv="content-language" conten
 <div id="ce" contenteditable="true"></div><iframe id="fr"><html><body><p id="ip">in</p><input id="r3" type="radio" name="g"></body></html></iframe>
 <custom-el id="cu"></custom-el><input id="r4" type="radio" name="h"></body></html>'''
 
+SCRIPTY = '''<html><head><style id="st">p{}</style><script id="sc">x()</script><title id="ti">t</title></head><body><template id="tp">tt<b id="tb"></b></template><ruby id="rb">a<rp id="rp">(</rp><rt id="rt">b</rt></ruby><script id="s2"></script><style id="s3"> </style><textarea id="ta">x</textarea><p id="e"></p><p id="w"> \n</p></body></html>'''
+
 PLAIN = '''<html><body><div id="d1" class="a"><p id="p1" class="a b" title="x y">one<span id="s1">two</span></p><!--c--><p id="p2"></p> <ul id="u"><li id="l1">1</li><li id="l2">2</li><li id="l3">3</li></ul></div><div id="d2" lang=""><p id="p3" lang="en-US">x</p></div></body></html>'''
 
 MULTIROOT = '''<!--lead--><p id="a">x</p>text<div id="b"><span id="c"></span></div><p id="d" class="a"></p>'''
@@ -24,6 +26,9 @@ XML = '''<?xml version="1.0" encoding="UTF-8"?><root xmlns="urn:d" xmlns:x="urn:
 
 XHTML = '''<?xml version="1.0" encoding="UTF-8"?><html xmlns="http://www.w3.org/1999/xhtml" lang="en"><head><title>t</title></head><body><p id="p1" dir="rtl">x</p><form id="f"><input id="i1" type="date" min="2000-01-01" value="1999-01-01"/><input id="i2" type="radio" name="g"/><input id="i3" type="submit"/></form><svg xmlns="http://www.w3.org/2000/svg" id="svg"><circle id="ci"/></svg></body></html>'''
 
+FOREIGN_FORM = '''<?xml version="1.0" encoding="UTF-8"?><html xmlns="http://www.w3.org/1999/xhtml"><head><meta class="seo x" name="d" content="c"/><meta http-equiv="content-language" content="en"/></head><body><form id="f"><x:form xmlns:x="urn:x" id="xf"><input id="i1" type="submit"/><input id="i2" type="radio" name="g"/></x:form><input id="i3" type="submit"/></form><p id="p">t</p></body></html>'''
+META_CLASS = '''<html><head><meta class="seo x" name="description" content="x"><meta accesskey="a b" http-equiv="content-language" content="en"></head><body><p id="p">t</p><form><math><form><annotation-xml encoding="text/html"><input type="submit" id="ms"></annotation-xml></form></math><input type="submit" id="s"></form></body></html>'''
+
 SPECS = {
     'forms_hp': (FORMS, 'html.parser'),
     'forms_lxml': (FORMS, 'lxml'),
@@ -31,9 +36,16 @@ SPECS = {
     'plain_hp': (PLAIN, 'html.parser'),
     'plain_h5': (PLAIN, 'html5lib'),
     'multiroot_hp': (MULTIROOT, 'html.parser'),
+    'scripty_hp': (SCRIPTY, 'html.parser'),
+    'scripty_lxml': (SCRIPTY, 'lxml'),
+    'scripty_h5': (SCRIPTY, 'html5lib'),
     'xml': (XML, 'xml'),
     'xhtml': (XHTML, 'xml'),
     'empty_hp': ('', 'html.parser'),
+    'foreign_form_xml': (FOREIGN_FORM, 'xml'),
+    'meta_class_hp': (META_CLASS, 'html.parser'),
+    'meta_class_h5': (META_CLASS, 'html5lib'),
+    'meta_class_lxml': (META_CLASS, 'lxml'),
 }
 
 _CACHE = {}
